@@ -69,6 +69,8 @@ namespace pika::threads::detail {
           , need_restore_state_(get_thread_id_data(thread_)->set_state_tagged(
                 thread_schedule_state::active, prev_state_, orig_state_))
         {
+            PIKA_VERIF_POINT(
+                "sl.active", get_thread_id_data(thread_), need_restore_state_, orig_state_.tag());
         }
 
         ~switch_status()
@@ -103,9 +105,13 @@ namespace pika::threads::detail {
 
             if (get_thread_id_data(thread_)->restore_state(prev_state_, orig_state_))
             {
+                PIKA_VERIF_POINT("sl.store", get_thread_id_data(thread_),
+                    static_cast<int>(prev_state_.state()), orig_state_.tag());
                 newstate = prev_state_;
                 return true;
             }
+            PIKA_VERIF_POINT("sl.store.fail", get_thread_id_data(thread_),
+                static_cast<int>(prev_state_.state()), orig_state_.tag());
             return false;
         }
 
@@ -315,6 +321,8 @@ namespace pika::threads::detail {
                 // call for a previously pending pika thread (see comments above).
                 thread_state state = get_thread_id_data(thrd)->get_state();
                 thread_schedule_state state_val = state.state();
+                PIKA_VERIF_POINT(
+                    "sl.got", get_thread_id_data(thrd), static_cast<int>(state_val), state.tag());
 
                 if (PIKA_LIKELY(thread_schedule_state::pending == state_val))
                 {
@@ -380,7 +388,10 @@ namespace pika::threads::detail {
 #  endif
 # endif
 
+                                PIKA_VERIF_POINT("sl.run.begin", thrdptr, num_thread, 0);
                                 thrd_stat = (*thrdptr)(context_storage);
+                                PIKA_VERIF_POINT("sl.run.end", thrdptr, num_thread,
+                                    static_cast<int>(thrd_stat.get_previous()));
 #endif
                             }
 
